@@ -856,15 +856,18 @@ class RegionObjectsState:
     def resolve_futures(self, obj: Object, update_type: ObjectUpdateType):
         futures = self._object_futures.get((obj.LocalID, update_type), [])
         for fut in futures[:]:
-            fut.set_result(obj)
+            # Futures only leave the list once their done callback has had a chance to run,
+            # may still have ones that were already resolved or cancelled.
+            if not fut.done():
+                fut.set_result(obj)
 
     def cancel_futures(self, local_id: int):
         # Object went away, so need to kill any pending futures.
         for fut_key, futs in self._object_futures.items():
+            # Not just the first, there may be futures for several update types
             if fut_key[0] == local_id:
                 for fut in futs:
                     fut.cancel()
-                break
 
 
 class LocationType(enum.IntEnum):
